@@ -46,8 +46,10 @@ class Script:
         self.targets = targets           # name -> [callable maker] (never bound to a local at call time)
         self.absval = absval             # projection of live values (harness supplied)
         self.events = []                 # ground truth + Log events
-        self.frames = {}                 # id(frame) -> fid   (strong refs kept in self.keep)
-        self.keep = []
+        self.frames = {}                 # id(frame) -> fid, only while the frame is live
+        self.keep = {}                   # fid -> frame: a strong reference only while the frame is live, so that
+                                         # finished / abandoned frames CAN be freed and their addresses reused
+        self.done_ids = set()            # id() of frames that finished (still valid only if somebody kept the frame)
         self.objs = {}                   # fid -> generator / coroutine object
         self.nfr = 0
         self.stack = []                  # fids of running fixture frames
@@ -60,8 +62,16 @@ class Script:
     def _new_fid(self, frame):
         self.nfr += 1
         self.frames[id(frame)] = self.nfr
-        self.keep.append(frame)
+        self.keep[self.nfr] = frame
+        self.done_ids.discard(id(frame))
         return self.nfr
+
+    def _finish(self, fid):
+        frame = self.keep.pop(fid, None)
+        if frame is not None:
+            self.frames.pop(id(frame), None)
+            self.done_ids.add(id(frame))
+        self.done.add(fid)
 
     def fid_of(self, frame):
         return self.frames.get(id(frame))
@@ -97,7 +107,7 @@ class Script:
             return self._finish_frame(fid)
         self._take()
         op = a["op"]
-        if op in ("Call", "Create", "Resume", "Throw"):
+        if op in ("Call", "Create", "Resume", "Throw", "Drop"):
             return ("do_catch" if a.get("catch", True) else "do"), a
         if a.get("id") not in (None, fid):
             raise ScriptError("script wants frame %s to %s but frame %s is running" % (a.get("id"), op, fid))
@@ -114,12 +124,12 @@ class Script:
             val = {"expr": a["val"], "const": 1, "implicit": None}[how]
             self.emit(ev="Return", fid=fid, how=how, v=self.absval(val))
             self.stack.pop()
-            self.done.add(fid)
+            self._finish(fid)
             return "ret_" + how, a["val"]
         if op == "Raise":
             self.emit(ev="Raise", fid=fid)
             self.stack.pop()
-            self.done.add(fid)
+            self._finish(fid)
             return "raise", None
         if op == "Rebind":
             self.emit(ev="Rebind", fid=fid, v=self.absval(a["val"]))
@@ -129,7 +139,7 @@ class Script:
     def _finish_frame(self, fid):
         self.emit(ev="Return", fid=fid, how="expr", v=self.absval(0))
         self.stack.pop()
-        self.done.add(fid)
+        self._finish(fid)
         return "ret_expr", 0
 
     def do(self, a):
@@ -169,14 +179,38 @@ class Script:
                 return None
             if op == "Throw":
                 self.emit(ev="Throw", fid=fid, caller=caller)
-                self.done.add(fid)
                 try:
                     obj.throw(Boom())
                 except Boom:
                     pass
                 except StopIteration:
                     pass
+                self._finish(fid)
                 return None
+            if op == "Drop":
+                # the program abandons a suspended generator: last reference gone -> close() -> GeneratorExit.
+                # If the script's next action is a plain call by the same actor, it is performed IMMEDIATELY after the
+                # drop, with everything prepared beforehand, so that the new frame is the first frame object allocated
+                # after the generator's frame was freed (address reuse is what a tracer keyed by id() trips over).
+                nxt = self._peek()
+                fused = None
+                if nxt is not None and nxt["op"] == "Call" and nxt["kind"] == "plain" and nxt.get("catch", True):
+                    self._take()
+                    fused = (self.targets[nxt["target"]](), nxt["args"], nxt["kwargs"],
+                             {"ev": "Call", "f": nxt["f"], "kind": nxt["kind"], "wanted": nxt["wanted"], "caller": caller,
+                              "catch": True, "args": self._bound(nxt, nxt["args"], nxt["kwargs"])}, nxt.get("draw", 0))
+                self.emit(ev="Drop", fid=fid, caller=caller)
+                frame = self.keep.pop(fid, None)
+                if frame is not None:
+                    self.frames.pop(id(frame), None)
+                del frame
+                self.objs.pop(fid, None)
+                if fused is None:
+                    obj = None
+                    return None
+                fn, fargs, fkwargs, self._pending_entry, self.cur_draw = fused
+                obj = None
+                return fn(*fargs, **fkwargs)
             raise ScriptError("cannot do %r" % (op,))
         except Boom:
             if not a.get("catch", True) and caller:
@@ -184,7 +218,7 @@ class Script:
                 self.emit(ev="Propagate", fid=caller)
                 if self.stack and self.stack[-1] == caller:
                     self.stack.pop()
-                self.done.add(caller)
+                self._finish(caller)
             raise
 
     def caught(self):
@@ -211,7 +245,7 @@ class Script:
             a = self._peek()
             if a is None:
                 break
-            if a["op"] not in ("Call", "Create", "Resume", "Throw"):
+            if a["op"] not in ("Call", "Create", "Resume", "Throw", "Drop"):
                 raise ScriptError("driver cannot %s" % a["op"])
             self._take()
             try:
